@@ -376,17 +376,19 @@ def job_logexp(g, tier):
                 try:
                     if series:
                         with T.time_budget(20 if tier == "quick" else 240):
-                            v = series_roundtrip(T.Sub(p2.outs[k], a[k]), g, a, reg, res)
+                            v = series_roundtrip(T.Sub(p2.outs[k], a[k]), g, a, reg, res, relative=True)
                     else:
                         with T.time_budget(20 if tier == "quick" else 240):
                             v = solver.check_identity(T.nf(T.Sub(p2.outs[k], a[k])), pc=p1.pc + p2.pc, assumptions=asm)
                 except (T.PolyTooBig, MemoryError):
                     v = solver.Verdict("undecided", "normal form too large")
-                if v.status == "violated":
+                if v.status in ("violated", "undecided"):
                     w = roundtrip_witness(h, t, g, "log-exp", k, tangent_sampler(g))
                     if w:
+                        v.status = "violated"
                         res.add("%s/a%d" % (pk, k), v)
-                        res.violations.append({"key": "%s/a%d" % (key, k), "what": "log(exp(a)) != a: " + w["what"], "replay": w})
+                        if not any(x["key"] == "%s/a%d" % (key, k) for x in res.violations):
+                            res.violations.append({"key": "%s/a%d" % (key, k), "what": "log(exp(a)) != a: " + w["what"], "replay": w})
                         continue
                     v.status = "undecided"
                     v.how += " ; not reproduced natively"
@@ -398,15 +400,50 @@ def job_logexp(g, tier):
     return res
 
 
-def series_roundtrip(term, g, a, reg, res):
-    """bound |term| <= TOL on the series box of the tangent a (all blocks in the series regime use their T)"""
+def divide_by_angle(num, g, a, reg):
+    """num / theta for the (single) rotation block in the series regime, if theta divides every monomial (it does whenever the residual
+    vanishes at zero rotation); returns (quotient, True) or (num, False)"""
+    blocks = [(blk, do) for bi, (blk, ro, do, mo) in enumerate(O.group_blocks(g)) if reg[bi][0] == "series" and blk.rot]
+    if len(blocks) != 1:
+        return num, False
+    blk, do = blocks[0]
+    if len(blk.rot) == 3:
+        (m, _), = T.nf(O.Angle([a[do + i] for i in blk.rot]).theta)[0].items()
+        var = m[0][0]
+    else:
+        var = G.atom_of(a[do + blk.rot[0]])
+    out = {}
+    for m, c in num.items():
+        mm = dict(m)
+        if mm.get(var, 0) < 1:
+            return num, False
+        mm[var] -= 1
+        out[tuple(sorted((v, e) for v, e in mm.items() if e))] = c
+    return out, True
+
+
+def series_roundtrip(term, g, a, reg, res, relative=False):
+    """bound |term| <= TOL on the series box of the tangent a (all blocks in the series regime use their T).
+    relative=True (log(exp(a)) = a): the property is RELATIVE to |a|, and on a series box |a| is arbitrarily small, so the bound decided is
+    |term| <= (TOL/2) * theta  (theta = rotation norm <= sqrt(3) |a|_inf, hence stronger than the property; a failure only nominates the
+    native replay, which applies the property's own criterion)."""
     num, den = series_residual(term, g, a, reg)
+    tol = Fraction(TOL)
+    how = ""
+    if relative:
+        q, ok = divide_by_angle(num, g, a, reg)
+        if ok:
+            num, tol, how = q, Fraction(TOL) / 2, "relative to the rotation norm: "
+            res.bounds.add("log(exp(a)) = a on series paths decided as |residual| <= 5e-10 * rotation norm (relative)")
+        else:
+            res.notes.append("log-exp series residual not divisible by the rotation norm: absolute tolerance used")
     worst = None
     for L in LBOX:
         box = series_box(num, den, g, reg, L)
         if box is None:
             return solver.Verdict("undecided", "series round trip with an atom that cannot be enclosed")
-        v = solver.check_bound(num, box, Fraction(TOL), den_poly=None if T.p_is_const(den) else den, max_split=12)
+        v = solver.check_bound(num, box, tol, den_poly=None if T.p_is_const(den) else den, max_split=12)
+        v.how = how + v.how
         if v.status != "holds":
             v.status = "undecided"
             return v
@@ -428,11 +465,13 @@ def roundtrip_witness(h, t, g, kind, k, sampler, ntry=60):
                 continue
             gg = h.native(t + "_exp", a, g.rep)
             b = h.native(t + "_log", gg, g.dof)
-            sc = max([1.0] + [abs(x) for x in a])
+            sc = max(abs(x) for x in a)   # the property is RELATIVE to |a| (an absolute 1e-9 would be vacuous for small a)
+            if sc == 0.0:
+                continue
             e = abs(b[k] - a[k]) / sc
-            if not (e <= TOL * 10):
+            if not (e <= TOL):
                 return {"property": PID, "key": "%s/log-exp/a%d" % (t, k), "tu_name": h.name, "tu_text": h.text, "fn": t + "_exp", "inputs": a,
-                        "nout": g.rep, "native": gg, "what": "a=%r gives log(exp(a))[%d]=%r (err %.3g)" % (a, k, b[k], e), "err": e, "tol": TOL * 10}
+                        "nout": g.rep, "native": gg, "what": "a=%r gives log(exp(a))[%d]=%r (relative err %.3g)" % (a, k, b[k], e), "err": e, "tol": TOL}
         else:
             gg = g.random_element(random.Random(j), 10.0)
             a = h.native(t + "_log", gg, g.dof)
@@ -625,13 +664,13 @@ def _compile(g):
 
 def main(tier):
     run = check.Run(PID, tier)
-    check.JOB_BUDGET[0] = 300 if tier == 'quick' else 3000
+    check.JOB_BUDGET[0] = 300 if tier == 'quick' else 1500
     groups = list(G.BASIC.values()) + grouptu.bundle_shapes(tier)
     check.run_jobs([(_compile, (g,)) for g in groups])
     rt = groups if tier == "thorough" else [G.BASIC[n] for n in ("SO2", "SO3", "SE2", "C1", "SE3")]
     jobs = [(job_exp, (g, tier)) for g in groups] + [(job_logexp, (g, tier)) for g in rt] + [(job_explog, (g, tier)) for g in rt]
     run.bounds.append("log/exp round trips: " + ", ".join(g.name for g in rt))
-    run.extend(check.run_jobs(jobs, timeout=900 if tier == 'quick' else 3600))
+    run.extend(check.run_jobs(jobs, timeout=900 if tier == 'quick' else 1800))
     run.bounds += ["groups: " + ", ".join(g.name for g in groups), "closed-form paths: all tangent vectors (layer R identity)"]
     run.assumptions += ["layer R (exact real arithmetic); floating-point cancellation next to the switch is a layer-E question"]
     return run.finish()
